@@ -25,6 +25,12 @@ impl VMap<TypeIdV, Vec<AnyBoxObj>> {
         ensures final(self)@ == old(self)@.insert(k.id(), (if old(self)@.dom().contains(k.id()) { old(self)@[k.id()] } else { Seq::empty() }).push(v.val()))
     { unimplemented!() }
     #[verifier::external_body]
+    pub fn remove(&mut self, k: &TypeIdV) -> (r: Option<Vec<AnyBoxObj>>)
+        ensures r is Some <==> old(self)@.dom().contains(k.id()), r is Some ==> vals(&r->0) == old(self)@[k.id()], final(self)@ == old(self)@.remove(k.id())
+    { unimplemented!() }
+    #[verifier::external_body]
+    pub fn clear(&mut self) ensures final(self)@ == Map::<int, Seq<AnyVal>>::empty() { unimplemented!() }
+    #[verifier::external_body]
     pub fn get(&self, k: &TypeIdV) -> (r: Option<&Vec<AnyBoxObj>>)
         ensures r is Some <==> self@.dom().contains(k.id()), r is Some ==> vals(r->0) == self@[k.id()]
     { unimplemented!() }
